@@ -20,6 +20,7 @@ import (
 	"encoding/json"
 	"fmt"
 	"io"
+	"math/rand"
 	"sort"
 	"strings"
 	"sync"
@@ -51,7 +52,15 @@ type Case struct {
 	Sec   []Obj  `json:"sec"`   // everything stored in the secondary (ids # 0)
 	InL   []Obj  `json:"inL"`   // local listing order; entries with id 0 are legacy entries injected into the listing
 	InR   []Obj  `json:"inR"`   // remote listing in arrival order (id 0 = legacy entries of the primary)
-	Order string `json:"order"` // config/fed: "given" = feed the local listing in InL order, else store order
+	Order string `json:"order"` // config/fed: "given" = feed the local listing in InL order (standalone diff only), else store order
+	Seed  int64  `json:"seed"`  // permutation of the listings the primary returns during the real round
+}
+
+// Cmd is one raft command the real round submitted to the secondary.
+type Cmd struct {
+	Op  string `json:"op"` // delete | upsert
+	IDs []int  `json:"ids"`
+	OK  bool   `json:"ok"` // accepted by the FSM
 }
 
 // Event is what the real code did.
@@ -73,6 +82,8 @@ type Event struct {
 	// unique-name | graph-validation | other
 	ErrClass string `json:"errclass"`
 	Writes   int    `json:"writes"` // raft commands submitted to the secondary
+	Cmds     []Cmd  `json:"cmds"`   // ... in submission order, recorded from the real round
+	RIdx     uint64 `json:"ridx"`   // index the real round returned
 	Case     Case   `json:"case"`
 }
 
@@ -428,6 +439,7 @@ func (h hashTab) ofU64(v uint64) int {
 // ---------------------------------------------------------------- one round
 
 type round struct {
+	node    *consul.VerifReplNode
 	c       Case
 	pri     *fsm.FSM
 	sec     *fsm.FSM
@@ -456,10 +468,10 @@ func ids(l []int) []int {
 }
 
 // Run executes one case against the real code.
-func Run(c Case) (ev *Event) {
-	r := &round{c: c, pri: NewFSM(), sec: NewFSM(), ht: hashTab{}, legacyC: map[string]int{}, secIdx: 10}
+func Run(node *consul.VerifReplNode, c Case) (ev *Event) {
+	r := &round{node: node, c: c, pri: NewFSM(), sec: NewFSM(), ht: hashTab{}, legacyC: map[string]int{}, secIdx: 10}
 	ev = &Event{Typ: c.Typ, Kind: c.Kind, Last: scaleLast(c.Last), Err: "none", Case: c,
-		Pre: []Obj{}, InL: []Obj{}, InR: []Obj{}, Post: []Obj{}, Dels: []int{}, Ups: []int{}}
+		Pre: []Obj{}, InL: []Obj{}, InR: []Obj{}, Post: []Obj{}, Dels: []int{}, Ups: []int{}, Cmds: []Cmd{}}
 	r.ev = ev
 	defer func() {
 		if p := recover(); p != nil {
@@ -502,6 +514,132 @@ func (r *round) fail(class string, err error) {
 	}
 }
 
+// realRound runs the REAL round function of the type (replicateACLType via replicateACLPolicies /
+// Roles / Tokens, replicateConfig, IndexReplicator.Replicate) on the secondary FSM against the
+// primary store and records the raft commands it submitted, in order.
+func (r *round) realRound(extraLocal interface{}, pri *consul.VerifPrimary) {
+	pri.Store = r.pri.State()
+	pri.Shuffle = rand.New(rand.NewSource(r.c.Seed)).Shuffle
+	res, err := r.node.Round(r.c.Typ, r.sec, pri, extraLocal, r.ev.Last)
+	if err != nil {
+		r.fail("setup", err)
+		return
+	}
+	r.ev.RIdx = res.RemoteIndex
+	failed := ""
+	for _, a := range res.Applied {
+		c := r.decodeCmd(a)
+		r.ev.Cmds = append(r.ev.Cmds, c)
+		r.ev.Writes++
+		if !c.OK && failed == "" {
+			failed = "apply-" + c.Op
+		}
+	}
+	switch {
+	case res.Err != nil && failed != "":
+		r.fail(failed, res.Err)
+	case res.Err != nil:
+		r.fail("round", res.Err)
+	case res.Exit:
+		r.fail("round", fmt.Errorf("round asked to exit"))
+	case failed != "":
+		r.fail(failed, fmt.Errorf("a raft command was rejected but the round reported success"))
+	}
+}
+
+func (r *round) decodeCmd(a consul.VerifApplied) Cmd {
+	c := Cmd{OK: a.Err == "", IDs: []int{}}
+	bad := func(err error) Cmd { c.Op = "undecodable: " + err.Error(); return c }
+	switch a.Type {
+	case structs.ACLPolicyDeleteRequestType:
+		var req structs.ACLPolicyBatchDeleteRequest
+		if err := structs.Decode(a.Data, &req); err != nil {
+			return bad(err)
+		}
+		c.Op = "delete"
+		for _, id := range req.PolicyIDs {
+			c.IDs = append(c.IDs, revACL(id))
+		}
+	case structs.ACLPolicySetRequestType:
+		var req structs.ACLPolicyBatchSetRequest
+		if err := structs.Decode(a.Data, &req); err != nil {
+			return bad(err)
+		}
+		c.Op = "upsert"
+		for _, p := range req.Policies {
+			c.IDs = append(c.IDs, revACL(p.ID))
+		}
+	case structs.ACLRoleDeleteRequestType:
+		var req structs.ACLRoleBatchDeleteRequest
+		if err := structs.Decode(a.Data, &req); err != nil {
+			return bad(err)
+		}
+		c.Op = "delete"
+		for _, id := range req.RoleIDs {
+			c.IDs = append(c.IDs, revACL(id))
+		}
+	case structs.ACLRoleSetRequestType:
+		var req structs.ACLRoleBatchSetRequest
+		if err := structs.Decode(a.Data, &req); err != nil {
+			return bad(err)
+		}
+		c.Op = "upsert"
+		for _, p := range req.Roles {
+			c.IDs = append(c.IDs, revACL(p.ID))
+		}
+	case structs.ACLTokenDeleteRequestType:
+		var req structs.ACLTokenBatchDeleteRequest
+		if err := structs.Decode(a.Data, &req); err != nil {
+			return bad(err)
+		}
+		c.Op = "delete"
+		for _, id := range req.TokenIDs {
+			c.IDs = append(c.IDs, revACL(id))
+		}
+	case structs.ACLTokenSetRequestType:
+		var req structs.ACLTokenBatchSetRequest
+		if err := structs.Decode(a.Data, &req); err != nil {
+			return bad(err)
+		}
+		c.Op = "upsert"
+		for _, p := range req.Tokens {
+			c.IDs = append(c.IDs, revACL(p.AccessorID))
+		}
+	case structs.ConfigEntryRequestType:
+		var req structs.ConfigEntryRequest
+		if err := structs.Decode(a.Data, &req); err != nil {
+			return bad(err)
+		}
+		c.Op = "upsert"
+		if req.Op == structs.ConfigEntryDelete || req.Op == structs.ConfigEntryDeleteCAS {
+			c.Op = "delete"
+		}
+		c.IDs = append(c.IDs, cfgIDOf(req.Entry.GetKind(), req.Entry.GetName()))
+	case structs.FederationStateRequestType:
+		var req structs.FederationStateRequest
+		if err := structs.Decode(a.Data, &req); err != nil {
+			return bad(err)
+		}
+		c.Op = "upsert"
+		if req.Op == structs.FederationStateDelete {
+			c.Op = "delete"
+		}
+		c.IDs = append(c.IDs, revFed(req.State.Datacenter))
+	default:
+		c.Op = fmt.Sprintf("other-%d", a.Type)
+	}
+	return c
+}
+
+// harnessCmd records a command the harness itself applied (self-test -perturb path only).
+func (r *round) harnessCmd(op string, ids []int, err error) {
+	r.ev.Writes++
+	r.ev.Cmds = append(r.ev.Cmds, Cmd{Op: op, IDs: ids, OK: err == nil})
+	if err != nil {
+		r.fail("apply-"+op, err)
+	}
+}
+
 // remoteMI: real index of the j-th write (1-based) with abstract index mi
 func remoteMI(mi uint64, j int) uint64 { return mi*IndexScale + uint64(j) }
 
@@ -537,6 +675,16 @@ func (r *round) policies() error {
 		if err := apply(r.pri, structs.ACLPolicySetRequestType, &structs.ACLPolicyBatchSetRequest{Policies: structs.ACLPolicies{mkPolicy(o.ID, o.C)}}, remoteMI(o.MI, j+1)); err != nil {
 			return err
 		}
+	}
+	// the primary's table index is at least lastRemoteIndex (it handed that index out earlier): an unrelated
+	// policy came and went at that index
+	bump := &structs.ACLPolicy{ID: aclID(98), Name: "zz-bump", Rules: ""}
+	bump.SetHash(true)
+	if err := apply(r.pri, structs.ACLPolicySetRequestType, &structs.ACLPolicyBatchSetRequest{Policies: structs.ACLPolicies{bump}}, r.ev.Last); err != nil {
+		return err
+	}
+	if err := apply(r.pri, structs.ACLPolicyDeleteRequestType, &structs.ACLPolicyBatchDeleteRequest{PolicyIDs: []string{bump.ID}}, r.ev.Last); err != nil {
+		return err
 	}
 	r.ev.Pre = r.listPolicies(r.sec)
 	// remote listing as ACL.PolicyList builds it: store list, Stub()
@@ -598,16 +746,20 @@ func (r *round) policies() error {
 	if derr != nil {
 		r.fail("stale", derr)
 	}
-	if len(res.LocalDeletes) > 0 { // aclPolicyReplicator.DeleteLocalBatch
-		r.ev.Writes++
-		if err := apply(r.sec, structs.ACLPolicyDeleteRequestType, &structs.ACLPolicyBatchDeleteRequest{PolicyIDs: res.LocalDeletes}, r.nextSecIdx()); err != nil {
-			r.fail("apply-delete", err)
+	if Perturb == "" {
+		var legacy structs.ACLPolicyListStubs
+		for _, st := range remote {
+			if st.ID == "" {
+				legacy = append(legacy, st)
+			}
 		}
-	}
-	if len(res.LocalUpserts) > 0 { // aclPolicyReplicator.UpdateLocalBatch
-		r.ev.Writes++
-		if err := apply(r.sec, structs.ACLPolicySetRequestType, &structs.ACLPolicyBatchSetRequest{Policies: updated}, r.nextSecIdx()); err != nil {
-			r.fail("apply-upsert", err)
+		r.realRound(extra, &consul.VerifPrimary{ExtraPolicies: legacy})
+	} else { // self-test only: the harness applies the corrupted diff itself
+		if len(res.LocalDeletes) > 0 {
+			r.harnessCmd("delete", r.ev.Dels, apply(r.sec, structs.ACLPolicyDeleteRequestType, &structs.ACLPolicyBatchDeleteRequest{PolicyIDs: res.LocalDeletes}, r.nextSecIdx()))
+		}
+		if len(res.LocalUpserts) > 0 {
+			r.harnessCmd("upsert", r.ev.Ups, apply(r.sec, structs.ACLPolicySetRequestType, &structs.ACLPolicyBatchSetRequest{Policies: updated}, r.nextSecIdx()))
 		}
 	}
 	r.ev.Post = r.listPolicies(r.sec)
@@ -683,6 +835,14 @@ func (r *round) roles() error {
 			return err
 		}
 	}
+	bump := &structs.ACLRole{ID: aclID(98), Name: "zz-bump"}
+	bump.SetHash(true)
+	if err := apply(r.pri, structs.ACLRoleSetRequestType, &structs.ACLRoleBatchSetRequest{Roles: structs.ACLRoles{bump}}, r.ev.Last); err != nil {
+		return err
+	}
+	if err := apply(r.pri, structs.ACLRoleDeleteRequestType, &structs.ACLRoleBatchDeleteRequest{RoleIDs: []string{bump.ID}}, r.ev.Last); err != nil {
+		return err
+	}
 	r.ev.Pre = r.listRoles(r.sec)
 	_, plist, err := r.pri.State().ACLRoleList(nil, "", nil) // ACL.RoleList
 	if err != nil {
@@ -736,16 +896,20 @@ func (r *round) roles() error {
 	if derr != nil {
 		r.fail("diff", derr)
 	}
-	if len(res.LocalDeletes) > 0 { // aclRoleReplicator.DeleteLocalBatch
-		r.ev.Writes++
-		if err := apply(r.sec, structs.ACLRoleDeleteRequestType, &structs.ACLRoleBatchDeleteRequest{RoleIDs: res.LocalDeletes}, r.nextSecIdx()); err != nil {
-			r.fail("apply-delete", err)
+	if Perturb == "" {
+		var legacy structs.ACLRoles
+		for _, st := range remote {
+			if st.ID == "" {
+				legacy = append(legacy, st)
+			}
 		}
-	}
-	if len(res.LocalUpserts) > 0 && derr == nil { // aclRoleReplicator.UpdateLocalBatch
-		r.ev.Writes++
-		if err := apply(r.sec, structs.ACLRoleSetRequestType, &structs.ACLRoleBatchSetRequest{Roles: updated, AllowMissingLinks: true}, r.nextSecIdx()); err != nil {
-			r.fail("apply-upsert", err)
+		r.realRound(extra, &consul.VerifPrimary{ExtraRoles: legacy})
+	} else { // self-test only
+		if len(res.LocalDeletes) > 0 {
+			r.harnessCmd("delete", r.ev.Dels, apply(r.sec, structs.ACLRoleDeleteRequestType, &structs.ACLRoleBatchDeleteRequest{RoleIDs: res.LocalDeletes}, r.nextSecIdx()))
+		}
+		if len(res.LocalUpserts) > 0 && derr == nil {
+			r.harnessCmd("upsert", r.ev.Ups, apply(r.sec, structs.ACLRoleSetRequestType, &structs.ACLRoleBatchSetRequest{Roles: updated, AllowMissingLinks: true}, r.nextSecIdx()))
 		}
 	}
 	r.ev.Post = r.listRoles(r.sec)
@@ -807,6 +971,13 @@ func (r *round) tokens() error {
 		if err := apply(r.pri, structs.ACLTokenSetRequestType, &structs.ACLTokenBatchSetRequest{Tokens: structs.ACLTokens{mkTokenReg(o.ID, o.C, false)}}, remoteMI(o.MI, j+1)); err != nil {
 			return err
 		}
+	}
+	bump := mkToken(98, 1, false)
+	if err := apply(r.pri, structs.ACLTokenSetRequestType, &structs.ACLTokenBatchSetRequest{Tokens: structs.ACLTokens{bump}}, r.ev.Last); err != nil {
+		return err
+	}
+	if err := apply(r.pri, structs.ACLTokenDeleteRequestType, &structs.ACLTokenBatchDeleteRequest{TokenIDs: []string{bump.AccessorID}}, r.ev.Last); err != nil {
+		return err
 	}
 	r.ev.Pre = r.listTokens(r.sec)
 	// ACL.TokenList with IncludeLocal=false, IncludeGlobal=true, then Stub()
@@ -870,17 +1041,21 @@ func (r *round) tokens() error {
 	if derr != nil {
 		r.fail("stale", derr)
 	}
-	if len(res.LocalDeletes) > 0 { // aclTokenReplicator.DeleteLocalBatch
-		r.ev.Writes++
-		if err := apply(r.sec, structs.ACLTokenDeleteRequestType, &structs.ACLTokenBatchDeleteRequest{TokenIDs: res.LocalDeletes}, r.nextSecIdx()); err != nil {
-			r.fail("apply-delete", err)
+	if Perturb == "" {
+		var legacy structs.ACLTokenListStubs
+		for _, st := range remote {
+			if st.AccessorID == "" {
+				legacy = append(legacy, st)
+			}
 		}
-	}
-	if len(res.LocalUpserts) > 0 { // aclTokenReplicator.UpdateLocalBatch
-		r.ev.Writes++
-		req := &structs.ACLTokenBatchSetRequest{Tokens: updated, CAS: false, AllowMissingLinks: true, FromReplication: true}
-		if err := apply(r.sec, structs.ACLTokenSetRequestType, req, r.nextSecIdx()); err != nil {
-			r.fail("apply-upsert", err)
+		r.realRound(extra, &consul.VerifPrimary{ExtraTokens: legacy})
+	} else { // self-test only
+		if len(res.LocalDeletes) > 0 {
+			r.harnessCmd("delete", r.ev.Dels, apply(r.sec, structs.ACLTokenDeleteRequestType, &structs.ACLTokenBatchDeleteRequest{TokenIDs: res.LocalDeletes}, r.nextSecIdx()))
+		}
+		if len(res.LocalUpserts) > 0 {
+			req := &structs.ACLTokenBatchSetRequest{Tokens: updated, CAS: false, AllowMissingLinks: true, FromReplication: true}
+			r.harnessCmd("upsert", r.ev.Ups, apply(r.sec, structs.ACLTokenSetRequestType, req, r.nextSecIdx()))
 		}
 	}
 	r.ev.Post = r.listTokens(r.sec)
@@ -924,6 +1099,15 @@ func (r *round) configs() error {
 	for j, o := range writeOrder(c.InR) {
 		req := &structs.ConfigEntryRequest{Op: structs.ConfigEntryUpsert, Datacenter: "dc1", Entry: mkConfig(o.ID, o.C, o.H == 0)}
 		if err := apply(r.pri, structs.ConfigEntryRequestType, req, remoteMI(o.MI, j+1)); err != nil {
+			return err
+		}
+	}
+	bump := &structs.ServiceConfigEntry{Kind: structs.ServiceDefaults, Name: "zz-bump", Protocol: "tcp"}
+	if err := bump.Normalize(); err != nil {
+		return err
+	}
+	for _, op := range []structs.ConfigEntryOp{structs.ConfigEntryUpsert, structs.ConfigEntryDelete} {
+		if err := apply(r.pri, structs.ConfigEntryRequestType, &structs.ConfigEntryRequest{Op: op, Datacenter: "dc1", Entry: bump}, r.ev.Last); err != nil {
 			return err
 		}
 	}
@@ -978,19 +1162,16 @@ func (r *round) configs() error {
 		deletions = deletions[:len(deletions)-1]
 	}
 	r.ev.Dels, r.ev.Ups = cfgIDs(deletions), cfgIDs(updates)
-	// reconcileLocalConfig: one raft command per entry, deletions first
-	for _, e := range deletions {
-		r.ev.Writes++
-		req := &structs.ConfigEntryRequest{Op: structs.ConfigEntryDelete, Datacenter: "dc2", Entry: e}
-		if err := apply(r.sec, structs.ConfigEntryRequestType, req, r.nextSecIdx()); err != nil {
-			r.fail("apply-delete", err)
+	if Perturb == "" {
+		r.realRound(nil, &consul.VerifPrimary{})
+	} else { // self-test only
+		for _, e := range deletions {
+			req := &structs.ConfigEntryRequest{Op: structs.ConfigEntryDelete, Datacenter: "dc2", Entry: e}
+			r.harnessCmd("delete", cfgIDs([]structs.ConfigEntry{e}), apply(r.sec, structs.ConfigEntryRequestType, req, r.nextSecIdx()))
 		}
-	}
-	for _, e := range updates {
-		r.ev.Writes++
-		req := &structs.ConfigEntryRequest{Op: structs.ConfigEntryUpsert, Datacenter: "dc2", Entry: e}
-		if err := apply(r.sec, structs.ConfigEntryRequestType, req, r.nextSecIdx()); err != nil {
-			r.fail("apply-upsert", err)
+		for _, e := range updates {
+			req := &structs.ConfigEntryRequest{Op: structs.ConfigEntryUpsert, Datacenter: "dc2", Entry: e}
+			r.harnessCmd("upsert", cfgIDs([]structs.ConfigEntry{e}), apply(r.sec, structs.ConfigEntryRequestType, req, r.nextSecIdx()))
 		}
 	}
 	_, r.ev.Post = r.listConfigs(r.sec)
@@ -1036,6 +1217,12 @@ func (r *round) feds() error {
 	for j, o := range writeOrder(c.InR) {
 		req := &structs.FederationStateRequest{Op: structs.FederationStateUpsert, Datacenter: "dc1", State: mkFed(o.ID, o.C)}
 		if err := apply(r.pri, structs.FederationStateRequestType, req, remoteMI(o.MI, j+1)); err != nil {
+			return err
+		}
+	}
+	for _, op := range []structs.FederationStateOp{structs.FederationStateUpsert, structs.FederationStateDelete} {
+		bump := &structs.FederationState{Datacenter: "zz-bump", UpdatedAt: baseTime}
+		if err := apply(r.pri, structs.FederationStateRequestType, &structs.FederationStateRequest{Op: op, Datacenter: "dc1", State: bump}, r.ev.Last); err != nil {
 			return err
 		}
 	}
@@ -1091,20 +1278,18 @@ func (r *round) feds() error {
 		deletions = deletions[:len(deletions)-1]
 	}
 	r.ev.Dels, r.ev.Ups = fedIDs(deletions), fedIDs(updates)
-	for _, s := range deletions { // PerformDeletions
-		r.ev.Writes++
-		req := &structs.FederationStateRequest{Op: structs.FederationStateDelete, Datacenter: "dc2", State: s}
-		if err := apply(r.sec, structs.FederationStateRequestType, req, r.nextSecIdx()); err != nil {
-			r.fail("apply-delete", err)
+	if Perturb == "" {
+		r.realRound(nil, &consul.VerifPrimary{})
+	} else { // self-test only
+		for _, s := range deletions {
+			req := &structs.FederationStateRequest{Op: structs.FederationStateDelete, Datacenter: "dc2", State: s}
+			r.harnessCmd("delete", fedIDs([]*structs.FederationState{s}), apply(r.sec, structs.FederationStateRequestType, req, r.nextSecIdx()))
 		}
-	}
-	for _, s := range updates { // PerformUpdates
-		r.ev.Writes++
-		dup := *s
-		dup.PrimaryModifyIndex = s.ModifyIndex
-		req := &structs.FederationStateRequest{Op: structs.FederationStateUpsert, Datacenter: "dc2", State: &dup}
-		if err := apply(r.sec, structs.FederationStateRequestType, req, r.nextSecIdx()); err != nil {
-			r.fail("apply-upsert", err)
+		for _, s := range updates {
+			dup := *s
+			dup.PrimaryModifyIndex = s.ModifyIndex
+			req := &structs.FederationStateRequest{Op: structs.FederationStateUpsert, Datacenter: "dc2", State: &dup}
+			r.harnessCmd("upsert", fedIDs([]*structs.FederationState{s}), apply(r.sec, structs.FederationStateRequestType, req, r.nextSecIdx()))
 		}
 	}
 	_, r.ev.Post = r.listFeds(r.sec)
